@@ -138,6 +138,19 @@ def rand_matrix(ctx, rng, sym=None, fermionic=None, kind=None, dtype=None, squar
                 if min(b.shape) >= 2 and rng.random() < 0.7:
                     x.blocks[s] = _lowrank(npr, b.shape, dtype, rng.randint(1, min(b.shape) - 1))
                     feats.add("rank-deficient-block")
+    if fermionic and kind == "direct" and not square and not uniform and rng.random() < 0.08:
+        # a matrix that carries TWO odd labels: the product of two odd-parity matrices
+        k_ = gen.rand_index(sr, rng, sym, maxc=3, maxd=3, p_single=0.0, minc=2)
+        odd = [c_ for c_ in gen.POOL[sym] if R.par(sym, c_)]
+        try:
+            A = gen.make_array(sr, rng, sym, [x.indices[0], k_], charge=rng.choice(odd), fermionic=True, values=vals, sparsity=0.0, nphase=0, label=rng.randint(1, 40), exotic=False)
+            B = gen.make_array(sr, rng, sym, [gen.conj_index(sr, k_), x.indices[1]], charge=rng.choice(odd), fermionic=True, values=vals, sparsity=0.0, nphase=0, label=rng.randint(41, 80), exotic=False)
+            P = sr.tensordot(A, B, axes=([1], [0]), preserve_array=True)
+            if P.blocks and len(getattr(P, "oddpos", ())) == 2:
+                x = P
+                feats.add("two-label-matrix")
+        except Exception:
+            pass
     if rng.random() < 0.08:
         x, hist_ = gen.identity_history(sr, rng, x)
         if hist_:
